@@ -1,60 +1,83 @@
 ------------------------------ MODULE FsModel ------------------------------
-(* A directory as seen by one process: generic POSIX-like operations.        *)
-(* Shared by Rewrite (the code-shaped protocol, model checked) and           *)
-(* Rewrite_Trace (replay of the system calls recorded from the real tool),   *)
-(* so that ANY observed operation sequence can be pushed through it -- the   *)
-(* model is not tied to the protocol langlint happens to use today.          *)
-(*   dir : function  name -> content (a string); DOMAIN dir = names present  *)
-(*   fds : function  descriptor -> name it was opened on                     *)
+(* A small tree of directories as seen by one process: generic POSIX-like    *)
+(* operations.  Shared by Rewrite (the code-shaped protocol, model checked)  *)
+(* and Rewrite_Trace (replay of the system calls recorded from the real      *)
+(* tool), so that ANY observed operation sequence can be pushed through it   *)
+(* -- the model is not tied to the protocol langlint happens to use today.   *)
+(*   dir : function  name -> entry;  DOMAIN dir = names present.  A name is  *)
+(*         a path relative to the scratch root ("d/messages_xx.txt").        *)
+(*         entry = [k |-> "file", c |-> content]                             *)
+(*               | [k |-> "link", c |-> name the symbolic link points to]    *)
+(*   fds : function  descriptor -> name of the FILE it was opened on         *)
 (* An operation is a record with field ev:                                   *)
-(*   open(name, fd, creat, excl, trunc)  write(fd, data)  close(fd)          *)
+(*   open(name, fd, creat, excl, trunc, nofollow)  write(fd, data) close(fd) *)
 (*   chmod(name)  rename(from, to)  unlink(name)  link(from, to)             *)
-(*   ftruncate(fd)  truncate(name)  fsync(fd)                                 *)
+(*   symlink(target, name)  ftruncate(fd)  truncate(name)  fsync(fd)         *)
+(* open/truncate follow symbolic links; rename/unlink/link act on the name  *)
+(* itself (a rename over a link replaces the link).                          *)
 (* Only successful calls are applied (a failed call changes nothing).        *)
 (* "The process stops" = the process dies: descriptors vanish, everything    *)
 (* written so far stays (no power loss, so no fsync reasoning).              *)
 EXTENDS Integers, Sequences, FiniteSets, TLC
 
-Has(d, n) == n \in DOMAIN d
+File(c) == [k |-> "file", c |-> c]
+Link(t) == [k |-> "link", c |-> t]
 
-Put(d, n, c) == [x \in DOMAIN d \cup {n} |-> IF x = n THEN c ELSE d[x]]
+Has(d, n)    == n \in DOMAIN d
+IsLink(d, n) == Has(d, n) /\ d[n].k = "link"
+IsFile(d, n) == Has(d, n) /\ d[n].k = "file"
+(* follow at most two links (enough for every state built here; a longer chain reads as missing) *)
+Resolve(d, n) == IF ~IsLink(d, n) THEN n
+                 ELSE LET t == d[n].c IN IF IsLink(d, t) THEN d[t].c ELSE t
+
+Put(d, n, e) == [x \in DOMAIN d \cup {n} |-> IF x = n THEN e ELSE d[x]]
 Drop(d, n)   == [x \in DOMAIN d \ {n} |-> d[x]]
 
-FsOpen(d, n, creat, excl, trunc) ==
-  IF Has(d, n) THEN (IF creat /\ excl THEN d                 \* EEXIST (not applied)
-                     ELSE IF trunc THEN Put(d, n, "") ELSE d)
-  ELSE IF creat THEN Put(d, n, "") ELSE d
+(* the name of the file an open() ends up on *)
+OpenTarget(d, n, nofollow) == IF nofollow THEN n ELSE Resolve(d, n)
 
-FsAppend(d, n, data) == IF Has(d, n) THEN Put(d, n, d[n] \o data) ELSE d
+FsOpen(d, n, creat, excl, trunc, nofollow) ==
+  LET r == OpenTarget(d, n, nofollow) IN
+  IF Has(d, n) /\ creat /\ excl THEN d                         \* EEXIST (not applied)
+  ELSE IF Has(d, r) THEN (IF trunc /\ IsFile(d, r) THEN Put(d, r, File("")) ELSE d)
+  ELSE IF creat THEN Put(d, r, File("")) ELSE d                \* also creates the target of a dangling link
+
+FsAppend(d, n, data) == IF IsFile(d, n) THEN Put(d, n, File(d[n].c \o data)) ELSE d
 FsRename(d, a, b)    == IF Has(d, a) /\ a # b THEN Put(Drop(d, a), b, d[a]) ELSE d
-FsLink(d, a, b)      == IF Has(d, a) /\ ~Has(d, b) THEN Put(d, b, d[a]) ELSE d
+FsLink(d, a, b)      == IF Has(d, a) /\ ~Has(d, b) THEN Put(d, b, d[a]) ELSE d    \* content copied: later writes through one name are not mirrored
+FsSymlink(d, t, n)   == IF Has(d, n) THEN d ELSE Put(d, n, Link(t))
 FsUnlink(d, n)       == IF Has(d, n) THEN Drop(d, n) ELSE d
-FsTrunc(d, n)        == IF Has(d, n) THEN Put(d, n, "") ELSE d
+FsTrunc(d, n)        == LET r == Resolve(d, n) IN IF IsFile(d, r) THEN Put(d, r, File("")) ELSE d
 
 (* one operation applied to <<dir, fds>> *)
 ApplyDir(d, f, e) ==
-  CASE e.ev = "open"      -> FsOpen(d, e.name, e.creat, e.excl, e.trunc)
+  CASE e.ev = "open"      -> FsOpen(d, e.name, e.creat, e.excl, e.trunc, e.nofollow)
     [] e.ev = "write"     -> IF e.fd \in DOMAIN f THEN FsAppend(d, f[e.fd], e.data) ELSE d
     [] e.ev = "rename"    -> FsRename(d, e.from, e.to)
     [] e.ev = "link"      -> FsLink(d, e.from, e.to)
+    [] e.ev = "symlink"   -> FsSymlink(d, e.target, e.name)
     [] e.ev = "unlink"    -> FsUnlink(d, e.name)
     [] e.ev = "truncate"  -> FsTrunc(d, e.name)
     [] e.ev = "ftruncate" -> IF e.fd \in DOMAIN f THEN FsTrunc(d, f[e.fd]) ELSE d
     [] OTHER              -> d            \* close, chmod, fsync: content unchanged
 
 ApplyFds(d, f, e) ==
-  CASE e.ev = "open"  -> [x \in DOMAIN f \cup {e.fd} |-> IF x = e.fd THEN e.name ELSE f[x]]
+  CASE e.ev = "open"  -> LET r == OpenTarget(d, e.name, e.nofollow) IN
+                         [x \in DOMAIN f \cup {e.fd} |-> IF x = e.fd THEN r ELSE f[x]]
     [] e.ev = "close" -> [x \in DOMAIN f \ {e.fd} |-> f[x]]
     [] e.ev = "rename" -> [x \in DOMAIN f |-> IF f[x] = e.from THEN e.to ELSE f[x]]   \* descriptor follows the file
     [] OTHER          -> f
 
-OpNames == {"open", "write", "close", "chmod", "rename", "link", "unlink", "truncate", "ftruncate", "fsync"}
+OpNames == {"open", "write", "close", "chmod", "rename", "link", "symlink", "unlink", "truncate", "ftruncate", "fsync"}
 
 (* ---- the two clauses of C36, on a directory value ---- *)
-(* after the process stopped, the path holds the complete original or the    *)
-(* complete formatted content                                                *)
-CrashSafeDir(d, path, orig, new) == Has(d, path) /\ d[path] \in {orig, new}
-(* after a later successful run nothing but the files that were there before *)
-(* the (first) rewrite started remains                                       *)
+(* what a reader of the path gets: through symbolic links *)
+Readable(d, path) == IsFile(d, Resolve(d, path))
+Read(d, path)     == d[Resolve(d, path)].c
+(* the path holds the complete original or the complete formatted content     *)
+(* (after the process stopped -- and still after any later run of the tool)   *)
+CrashSafeDir(d, path, orig, new) == Readable(d, path) /\ Read(d, path) \in {orig, new}
+(* after a later successful run nothing but the names that were there before  *)
+(* the (first) rewrite started remains                                        *)
 CleanDir(d, keep) == DOMAIN d \subseteq keep
 =============================================================================
